@@ -270,7 +270,8 @@ func TestReplay(t *testing.T) {
 		t.Fatal(err)
 	}
 	defer B.c.Close()
-	bdf, err := block.NewBlockDataFactory(A.c.Node.Chain, []base.BlockHandler{block.NewBlockV2Handler(A.c.Node.Chain)})
+	hdl := block.NewBlockV2Handler(A.c.Node.Chain)
+	bdf, err := block.NewBlockDataFactory(A.c.Node.Chain, []base.BlockHandler{hdl})
 	if err != nil {
 		t.Fatal(err)
 	}
@@ -373,6 +374,13 @@ func TestReplay(t *testing.T) {
 				}
 				return k
 			}
+			if strings.HasPrefix(s.Dmg.Class, "hdr:") {
+				hs, err := mutateHeader(crnd, &f.HF, hEnc, s.Dmg.Class)
+				if err != nil {
+					return fmt.Errorf("case %d: %v", idx, err)
+				}
+				stream = append(hs, bEnc...)
+			}
 			switch s.Dmg.Class {
 			case "cut":
 				if s.Dmg.K < 16 {
@@ -399,10 +407,33 @@ func TestReplay(t *testing.T) {
 				crnd.Read(tail)
 				stream = append(stream, tail...)
 			default:
-				return fmt.Errorf("unknown damage class %q", s.Dmg.Class)
+				if !strings.HasPrefix(s.Dmg.Class, "hdr:") {
+					return fmt.Errorf("unknown damage class %q", s.Dmg.Class)
+				}
 			}
 		}
-		out.Begin(id, "decode:crash")
+		out.Begin(id, "decode:crash:"+s.Dmg.Class)
+		if strings.HasPrefix(s.Dmg.Class, "hdr:") {
+			// the header alone, as the node reads it back from its database (blockV2Handler.NewBlockFromHeaderReader)
+			var herr error
+			_, _, panicked := call(func() (module.BlockData, error) {
+				_, herr = hdl.NewBlockFromHeaderReader(bytes.NewReader(stream[:len(stream)-len(bEnc)]))
+				return nil, herr
+			})
+			hid := id + "/HeaderReader"
+			hdet := map[string]interface{}{"behaviour": steps, "via": "NewBlockFromHeaderReader", "spec": s.Res, "real": fmt.Sprint(herr)}
+			switch {
+			case panicked != "":
+				hdet["panic"] = panicked
+				violation(hid, "decode:panic:"+s.Dmg.Class, fmt.Sprintf("NewBlockFromHeaderReader panics on %s: %s", sigOf(s), firstLine(panicked)), hdet)
+			case herr == nil && s.Res == "reject":
+				violation(hid, "decode:accepted:"+s.Dmg.Class, fmt.Sprintf("NewBlockFromHeaderReader accepts a header the spec rejects: %s", sigOf(s)), hdet)
+			case herr != nil && s.Res == "ok":
+				out.Divergence(hid, fmt.Sprintf("NewBlockFromHeaderReader rejects a header the spec accepts: %s: %v", sigOf(s), herr), hdet)
+			default:
+				out.OK(hid, true, "HeaderReader:"+sigOf(s))
+			}
+		}
 		for _, via := range []string{"BlockManager", "BlockDataFactory"} {
 			bd, derr, panicked := call(func() (module.BlockData, error) {
 				if via == "BlockManager" {
@@ -455,6 +486,74 @@ func TestReplay(t *testing.T) {
 
 // mutated labels a wrongly accepted stream by the parts that the spec says do not match the header
 // (or by the damage class).
+// rlpList wraps the concatenated item encodings in an RLP list prefix.
+func rlpList(items [][]byte) []byte {
+	var payload []byte
+	for _, it := range items {
+		payload = append(payload, it...)
+	}
+	n := len(payload)
+	if n < 56 {
+		return append([]byte{0xc0 + byte(n)}, payload...)
+	}
+	var lb []byte
+	for x := n; x > 0; x >>= 8 {
+		lb = append([]byte{byte(x)}, lb...)
+	}
+	return append(append([]byte{0xf7 + byte(len(lb))}, lb...), payload...)
+}
+
+// mutateHeader re-encodes the header with one field replaced by a malformed value of the given class; every other
+// field keeps its real encoding, so all body hashes still match.
+func mutateHeader(rnd *rand.Rand, h *block.V2HeaderFormat, hEnc []byte, class string) ([]byte, error) {
+	fs := headerFields(h)
+	if !bytes.Equal(rlpList(fs), hEnc) {
+		return nil, fmt.Errorf("header re-assembly differs from the real encoding")
+	}
+	rb := func(n int) []byte {
+		b := make([]byte, n)
+		rnd.Read(b)
+		if n > 0 && b[0] == 0 {
+			b[0] = 1
+		}
+		return b
+	}
+	idx := map[string]int{"version": 0, "height": 1, "timestamp": 2, "proposer": 3, "previd": 4, "voteshash": 5,
+		"nextvalidatorshash": 6, "logsbloom": 9, "result": 10, "nsfilter": 11}
+	parts := strings.Split(class, ":")
+	field, kind := parts[1], parts[2]
+	i := idx[field]
+	var v []byte
+	switch field + ":" + kind {
+	case "proposer:empty":
+		v = enc([]byte{})
+	case "proposer:nil":
+		v = enc([]byte(nil))
+	case "proposer:19":
+		v = enc(rb(19))
+	case "proposer:20":
+		v = enc(rb(20))
+	case "proposer:22":
+		v = enc(append([]byte{0}, rb(21)...))
+	case "proposer:type2":
+		v = enc(append([]byte{2}, rb(20)...))
+	case "proposer:type255":
+		v = enc(append([]byte{0xff}, rb(20)...))
+	case "version:long", "height:long", "timestamp:long":
+		v = enc(rb([]int{9, 17, 33}[rnd.Intn(3)])) // an integer is a big-endian byte string: longer than 8 bytes
+	case "nsfilter:odd":
+		v = enc(rb([]int{1, 3, 33, 65}[rnd.Intn(4)]))
+	default: // a hash of odd length
+		v = enc(rb([]int{1, 31, 33}[rnd.Intn(3)]))
+	}
+	if i < len(fs) {
+		fs[i] = v
+	} else {
+		fs = append(fs, v) // a filter where the block has none
+	}
+	return rlpList(fs), nil
+}
+
 func mutated(s step) string {
 	if s.Dmg.Class != "none" {
 		return s.Dmg.Class
